@@ -469,6 +469,27 @@ def equality_ignores_metadata(kind, text):
     b.metadata['only-here'] = 1
     if not (a == b and hash(a) == hash(b)):
         return [('equality or hash depends on metadata', text)]
+    # the documented annotations (id / title / description), present on one twin only, different on the two, and set
+    # after the hash was first taken: equal values hash alike and collapse in a set
+    for key in ('id', 'title', 'description'):
+        a = impl.parser(kind).parse(text)
+        b = impl.parser(kind).parse(text)
+        c = impl.parser(kind).parse(text)
+        h0 = hash(c)
+        a.metadata[key] = 'one'
+        b.metadata[key] = 'two'
+        c.metadata[key] = 'three'
+        if not (a == b == c and hash(a) == hash(b) == hash(c) == h0 and len({a, b, c}) == 1):
+            return [('equality or hash depends on metadata', f'{text} [{key} = one / two / three]')]
+    if kind == 'prop':
+        import re
+
+        bare = re.sub(r'^(\s*#\s*(id|title|description)\s*:\s*("[^"]*"|\S+)\s*)+', '', text)
+        a = impl.parser(kind).parse('# id: one\n' + bare)
+        b = impl.parser(kind).parse('# id: two\n# title: "t"\n' + bare)
+        c = impl.parser(kind).parse(bare)
+        if not (a == b == c and hash(a) == hash(b) == hash(c) and len({a, b, c}) == 1):
+            return [('equality or hash depends on metadata', f'{text} [# id: one / # id: two, # title / no annotation]')]
     return []
 
 
